@@ -4,7 +4,7 @@ from __future__ import annotations
 import itertools
 
 from ..model import AnalysisError
-from ..symex import Symex, Obj
+from ..symex import Symex, Obj, Raised
 from ..terms import T, sym, show, t_pow, expand_products, canon, multiset, multiset_diff, summands, is_num
 
 EXPLANATION = (
@@ -131,8 +131,10 @@ class World:
             names = split(ind) if isinstance(ind, str) else list(ind)
             if spins is None:
                 spins = [""] * len(names)
-            if len(spins) != len(names) or not all(isinstance(n, str) for n in names):
+            if not all(isinstance(n, str) for n in names) or not isinstance(spins, (str, list, tuple)):
                 raise AnalysisError(f"R15: get_symbols({ind!r}, {spins!r}) outside the model")
+            if len(spins) != len(names):
+                raise Raised("Inputerror")      # as Indices.get_indices does
             return [W.idx(n, s) for n, s in zip(names, spins)]
 
         def expr_ctor(sx, a, kw):
@@ -435,10 +437,12 @@ def r15e(ctx):
         if not ok:
             continue
         exp = [c for c in W.log if c[0] == "expand_antisym_eri"]
-        ctx.check(rule, fn, [c[1] for c in exp] == ([W.ie] if expand else []),
+        ok = ctx.check(rule, fn, [c[1] for c in exp] == ([W.ie] if expand else []),
                   "antisymmetric ERI of the integrated expression expanded iff requested",
                   f"{what}: expand_antisym_eri applied {len(exp)} time(s) to {[getattr(c[1], 'name', c[1]) for c in exp]}; expected "
                   f"{'once to the integrated expression' if expand else 'not at all'}", key=f"expand flag {restricted} {expand}")
+        if not ok:
+            continue
         if not restricted:
             ctx.check(rule, fn, o.value is W.ie, "unrestricted: the integrated expression is returned",
                       f"{what}: returns {show(o.value)[:200]} instead of the integrated expression", key=f"unrestricted {expand} {provided}")
